@@ -464,6 +464,15 @@ def oracle_connect(ck, cw, spec, env_toks, ts, txt, r, w, replay):
                   or (c == "UnsupportedTargetError" and site.startswith("l")))
         if len(w.log) != pos:
             ck.fail("activity-after-error", "events %s after the device error" % w.log[pos:], replay)
+    # ---- discovery uses the targets on-startup returned (before any activation re-selects a tag on its own)
+    if w.startup_targets:
+        first_act = w.log.index("act") if "act" in w.log else len(w.log)
+        for pos, t in w.sense_args:
+            if pos < first_act and not any(t is x for x in w.startup_targets):
+                ck.fail("rdwr-senses-target-not-returned-by-on-startup",
+                        "connect() handed the device a target (%s) that is not one of the objects the rdwr on-startup "
+                        "callback returned (%s)" % (t, ", ".join(str(x) for x in w.startup_targets)), replay)
+                break
     # ---- a discovered target is activated only (and at once) after a true on-discover
     for i, t in enumerate(w.log):
         if t in ("act", "emu"):
